@@ -88,7 +88,7 @@ fn collections(ctx: &mut Ctx, rng: &mut Rng, case: u64) {
 }
 
 pub fn run(ctx: &mut Ctx) {
-    let total = ctx.n(3_000, 60_000);
+    let total = ctx.n(20_000, 300_000);
     for case in ctx.cases(total) {
         ctx.begin_case(case);
         let mut rng = ctx.rng(case);
